@@ -543,8 +543,20 @@ Proof.
   destruct d as [|x d'].
   - cbn [is_nil]. unfold sim, view_content, view_pos. cbn. rewrite app_nil_r.
     repeat split; assumption.
-  - set (d := x :: d'). cbn [is_nil]. unfold sim. cbn [r_content r_pos r_rd r_wr r_app set_content].
-    unfold view_content, view_pos, wa_content in *. cbn. rewrite S5.
+  - assert (Hnil : is_nil (x :: d') = false) by reflexivity. set (d := x :: d') in *. rewrite Hnil.
+    unfold sim. cbn [r_content r_pos r_rd r_wr r_app set_content].
+    set (f1 := upd_wr f (wbuf f ++ d) (pos f) (realpos f) (fsize f) (strm f)).
+    assert (E1 : view_content f1 =
+                 wa_content (fl_append f) (s_content (strm f)) (pos f) (wbuf f ++ d)) by reflexivity.
+    assert (E2 : view_pos f1 =
+                 if fl_append f
+                 then (if is_nil (wbuf f ++ d) then pos f
+                       else zlen (s_content (strm f)) + zlen (wbuf f ++ d))
+                 else pos f + zlen (wbuf f ++ d)) by reflexivity.
+    assert (E3 : fl_read f1 = fl_read f /\ fl_write f1 = fl_write f /\ fl_append f1 = fl_append f)
+      by (repeat split; reflexivity).
+    destruct E3 as (E3 & E4 & E5). rewrite E1, E2, E3, E4, E5, S5.
+    unfold view_content, view_pos, wa_content in S1, S2. unfold wa_content.
     destruct (fl_append f) eqn:Ea.
     + rewrite S1, put_end. split; [now rewrite app_assoc|].
       replace (is_nil (wbuf f ++ d)) with false
